@@ -571,6 +571,7 @@ def check_C20(tier, rng, jobs):
         progs.append(G.commit_program(rng, 2 if q else 5, big=True))
     progs.append(G.index_damage_program(rng, nrec=2, flips=60, cuts=80))
     progs.append(G.cleared_writer_program(rng))
+    progs += [G.cancel_program(rng) for _ in range(2 if q else 12)]
     progs += [G.abandon_program(rng, 10 if q else 30) for _ in range(4 if q else 30)]
     progs += _mixed(tier, rng)
     agg = RN.run_batches("C20", RN.chunk(progs, 2), opts={"oddroot": True}, jobs=jobs)
